@@ -254,7 +254,7 @@ _spec = st.one_of(
 DTS = [1.0, 0.5, 0.25, 2.0, 1.0, 0.5, 0.1, 1.3, 0.7]
 FREQS = [10.0, 100.0, 900.0, 0.0]
 # expected spikes per step at intensity 1 (frequency = 1000 p / dt); > 1 is clamped / saturates
-PSTEP = [0.05, 0.1, 0.25, 0.5, 0.5, 0.8, 0.95, 1.5]
+PSTEP = [0.05, 0.1, 0.25, 0.5, 0.5, 0.8, 0.8, 0.95, 1.5]
 # configuration paths that crash on the pinned tree (proposed known findings): kept at a small
 # fraction of the setter cases so that the search continues behind them
 KNOWN_REGION_ONE_IN = 8
@@ -268,7 +268,7 @@ def encode_case(draw, tier="quick"):
     else:
         enc = draw(st.sampled_from(["hpe", "hpe", "hpe", "approx", "interval", "inhomog"]))
     smax = 80 if tier == "quick" else 200
-    steps = draw(st.one_of(st.integers(1, 12), st.integers(13, smax), st.integers(30, smax)))
+    steps = draw(st.one_of(st.integers(1, 12), st.integers(13, smax), st.integers(30, smax), st.integers(40, smax)))
     dt = draw(st.sampled_from(DTS))
     if draw(st.integers(0, 4)) == 0:
         freq = draw(st.sampled_from(FREQS))
@@ -282,7 +282,7 @@ def encode_case(draw, tier="quick"):
         "dtype": draw(st.sampled_from(["float32", "float32", "float64"])),
         "inten": draw(st.lists(_spec, min_size=1, max_size=6)),
     }
-    if draw(st.integers(0, 9)) < 6:
+    if draw(st.integers(0, 9)) < 8:
         # construction: make sure a silent and a busy element are both present
         c["inten"] = [["z"], ["o"]] + c["inten"][:4]
     if enc == "hpe":
@@ -312,7 +312,7 @@ def encode_case(draw, tier="quick"):
 LEGS = [
     Leg(
         name="encode", run=run_encode, strategy=lambda tier: encode_case(tier),
-        quick=700, thorough=12000, quick_shards=6, thorough_shards=16, nt_floor=0.3,
+        quick=1500, thorough=12000, quick_shards=8, thorough_shards=16, nt_floor=0.25,
         rule="every shipped encoder class and functional form, online and offline, generator seeded from the case, "
              "steps 1-80 (200 thorough), dt in {1, .5, .25, 2, .1, 1.3, .7}, frequency 0 / 10 / 100 / 900 Hz or 1000 p / dt with p in {.05 ... 1.5} expected spikes per step, refractory None / dt / "
              "2,3,5,7 dt, compensation on/off (frequency*refrac < 1000), intensities from {0, 1, 2^-20, drawn}, shapes "
